@@ -5,6 +5,7 @@ CONSTANTS
   MaxGen = 6
   MaxTokens = 4
   Depth = 24
+  WithRebase = TRUE
 INVARIANTS TypeOK FreshKeys AcceptedMeansLive Emit
 ACTION_CONSTRAINT EffectiveMostly
 CHECK_DEADLOCK FALSE
